@@ -92,14 +92,16 @@ ALSO = {
  "C02": " Where sizer and writer are not written as a tag switch in a loop, they are compared by evaluation on the same probe messages.",
  "C01": " Also decided by evaluation on 65 probe messages against the OSC 1.0 encoding written down from the specification: the sizer's length, every byte the writer emits, and the tag and offset the readers find for every argument. Also decided: the argument iterator, evaluated on probe type strings with nested / adjacent / empty arrays, yields every tag but '[' and ']' in order.",
  "C06": " Also decided: no length or offset is computed from two different loads of the index the other thread advances (label flow on the AST; comparisons exempt).",
- "C09": " Also decided for walk_ports: bytes appended by hand are NUL-terminated before the walker or the recursion reads the buffer.",
+ "C04": " Also decided: MergePorts takes two ports for duplicates only if their whole names are equal (test evaluated on name pairs); every lookup branch of Ports::dispatch ends in the default handler when nothing matched.",
+ "C17": " Also decided: a metadata macro handed preprocessor constants writes what it writes for their values (witness pairs).",
+ "C09": " Also decided: port_is_enabled looks for the enabling port below the sub-tree exactly when the 'enabled by' value begins with the sub-tree's own name and '/' (evaluated on name pairs). Also decided for walk_ports: bytes appended by hand are NUL-terminated before the walker or the recursion reads the buffer.",
  "C10": " Also decided: the printer leaves the second value of a range out exactly when the step is +-1 in the run's own type and no differing value of that type precedes (rtosc_print_range evaluated on symbolic runs), and it has a run's count confirmed by the readers' function for both spellings.",
- "C11": " Also decided: a local the checker is handed as an output it may leave unwritten is defined before, or the call's result is used, or it is not read (IR); the checker's choice of a range's left neighbour sets arrays apart as the scanner's does.",
- "C12": " Also decided: the buffer of the composed key `default <value>` holds any printed 32-bit integer.",
- "C13": " Also decided: in-degree increments and decrements range over the same collection.",
+ "C11": " Also decided: a local the checker is handed as an output it may leave unwritten is defined before, or the call's result is used, or it is not read (IR); the checker's choice of a range's left neighbour sets arrays apart as the scanner's does; the scanner's identifier parser and the checker's consume the same characters on probe words.",
+ "C12": " Also decided: the buffer of the composed key `default <value>` holds any printed 32-bit integer; load_from_file, interpreted with a sscanf model on 12 probe files, dispatches only after both header lines scanned completely with the exact application name.",
+ "C13": " Also decided: in-degree increments and decrements range over the same collection; the recursive dependency scan is told the level it came from (no endless re-walk for a sub-tree enabled by a port inside it).",
  "C14": " The clamp tables include negative incoming values in the clamp variable's own type, restricted to what the storage type represents.",
  "C16": " Also decided: the range-aware iterator, evaluated on 11 slot layouts, stands on each value once per repetition and leaves a finished range behind the whole repeated value.",
- "C19": " Also decided: every numeric branch of setSlotSub applies exp exactly when the scale is logarithmic (the bounds are kept as logarithms for every type).",
+ "C19": " Also decided: every numeric branch of setSlotSub applies exp exactly when the scale is logarithmic (the bounds are kept as logarithms for every type); the counted loops that renumber the learn queue visit every slot.",
 }
 for i in ids:
     if i in CLAIMS:
